@@ -53,7 +53,10 @@ def crash_site(err):
     """first library frame of a sanitizer report, as a stable name"""
     for f in re.findall(r"#\d+ 0x[0-9a-f]+ in ([^\n]*)", err):
         if "/src/" in f or "/include/manifold/" in f:
-            m = re.search(r"(?:manifold::)?(?:[A-Za-z_]\w*::)*([A-Za-z_]\w*)\s*(?:<|\()", f)
+            g = f
+            for _ in range(6):
+                g = re.sub(r"<[^<>]*>", "", g)
+            m = re.search(r"([A-Za-z_~]\w*)\s*\(", g)
             fn = m.group(1) if m else "?"
             fl = re.search(r"/(?:src|include/manifold)/([\w.]+):", f)
             return "%s@%s" % (fn, fl.group(1) if fl else "?")
@@ -316,7 +319,9 @@ def run(cx):
             continue
         st, nt, steps = impl[cid]
         if v == "A":
-            ok = st in (0, 2)
+            # past the ladder: NoError, NotManifold (IsManifold rung) or NonFiniteVertex (the closing !IsFinite() rung,
+            # reached e.g. when every triangle is degenerate and the bounding box stays empty)
+            ok = st in (0, 1, 2)
             dist["accepted_manifold" if st == 0 else "accepted_notmanifold"] += 1
         else:
             ok = st == int(v)
